@@ -70,4 +70,9 @@ CLAIMED = {
   text="Every list up to the length bound over each universe is sorted by the real code paths; output must be a permutation of the input, adjacent pairs non-decreasing under the real Compare, and the class sequence identical for all orderings of the same multiset; invalid arguments must give exit 1 and a diagnostic naming them.",
   note="Universes are derived from C01's universe and exclude elements of C01's known-intransitive classes; lengths 13/33/64 are covered by deterministic families, not all permutations. The CLI is driven through an overlay-injected stdin/stdout server calling the repository's own run().",
   ref="DESIGN.md 4 (C07)"),
+ "C15": dict(
+  technique="bounded-exhaustive enumeration of CLI argument vectors (20 names + vers + near-miss names x commands x all vectors up to length 3-5 over an argument pool) through the repository's run() via an overlay-built in-process server, a deterministic stride also as real processes, against results computed by calling the library directly",
+  text="Every enumerated argv is executed by the real CLI code and its stdout/exit code must equal what the library returns for the same arguments (or be exit 1 with a non-result diagnostic); ecosystem names come from the library packages, so a mis-wired registration or swapped arguments are caught for all 20 ecosystems.",
+  note="The in-process server is injected with go build -overlay (no source change); main()->os.Exit is validated on the stride executed as real processes.",
+  ref="DESIGN.md 4 (C15)"),
 }
